@@ -79,14 +79,19 @@ def escape_rows(repo):
         line = line.strip()
         if not line or line.startswith("//"):
             continue
-        a = re.fullmatch(r"b'((?:\\.|\\x[0-9a-fA-F]{2}|[^\\']))'\s*=>\s*buf\.write_all\(b\"((?:[^\"\\]|\\.)*)\"\)\?\s*,", line)
+        BYTE = r"(?:b'(?:\\x[0-9a-fA-F]{2}|\\.|[^\\'])'|0x[0-9a-fA-F_]+(?:u8)?|[0-9_]+(?:u8)?)"
+        a = re.fullmatch(r"(" + BYTE + r"(?:\s*\|\s*" + BYTE + r")*)\s*=>\s*buf\.write_all\(b\"((?:[^\"\\]|\\.)*)\"\)\?\s*,", line)
         if a:
             if default_seen:
                 raise ValueError("escape_html: arm after the default arm")
-            b = _unescape_char(a.group(1))
-            if b in rows:
-                raise ValueError(f"escape_html: byte {b} has two arms")
-            rows[b] = _unescape_bytes(a.group(2))
+            for pat in re.findall(BYTE, a.group(1)):
+                if pat.startswith("b'"):
+                    b = _unescape_char(pat[2:-1])
+                else:
+                    b = int(pat.replace("_", "").replace("u8", ""), 0)
+                if not 0 <= b < 256 or b in rows:
+                    raise ValueError(f"escape_html: byte {b} out of range or with two arms")
+                rows[b] = _unescape_bytes(a.group(2))
             continue
         if re.fullmatch(r"_\s*=>\s*buf\.write_all\(&\[\*c\]\)\?\s*,", line):
             default_seen = True
